@@ -60,7 +60,7 @@ Definition enc_obs (o : obs) : list Z := flat_map (fun p => enc_oval (snd p)) o.
 
 (* checksum of a table of integers: the harness compares checksums and asks for the full
    table only when they differ (printing large terms is the slow part of an evaluation) *)
-Definition ck_P : Z := 2305843009213693951.
+Definition ck_M : Z := 2305843009213693951.   (* 2^61 - 1, used as a bit mask *)
 Definition cksum_row (acc : Z) (row : list Z) : Z :=
-  fold_left (fun a z => (a * 1000003 + z + 7) mod ck_P) row ((acc * 31 + 1) mod ck_P).
+  fold_left (fun a z => Z.land (a * 8191 + z + 7) ck_M) row (Z.land (acc * 31 + 1) ck_M).
 Definition cksum (l : list (list Z)) : Z := fold_left cksum_row l 17.
